@@ -135,6 +135,11 @@ def check_dump_history(ctx, pms, fmt, D, case, seed_a, seed_b):
     at_path = None
     try:
         used = formats.build(pms, fmt, D, seed_a)
+        if fmt == "treeinfo" and len(used.variants.variants) > 1:
+            # ... dumped before with ANOTHER main variant than the default one
+            import io as _io
+            used.dump(_io.StringIO(), main_variant=sorted(v.uid for v in used.variants.variants.values())[-1])
+            ctx.count("treeinfo-dumped-before-with-other-main-variant")
         used.dumps()
         t_before = used.dumps()
         # the path the object is written to again later holds its earlier, LONGER state
